@@ -26,6 +26,7 @@ void  vrt_perturb_focus(const char *name, int pct, int usec);
 typedef struct { void *p; size_t size; const char *file; int line; long id; } vrt_block_t;
 void  vrt_mem_track(int on);       /* start/stop recording live blocks */
 long  vrt_mem_requests(void);      /* requests seen since vrt_mem_arm/track start */
+void  vrt_mem_scope(int on);      /* count / fail requests only while on (inside a library call) */
 void  vrt_mem_arm(long fail_from); /* requests with index >= fail_from (1-based) fail; 0 = never */
 long  vrt_mem_live(vrt_block_t *out, long max); /* live tracked blocks */
 long  vrt_mem_live_count(void);
